@@ -451,20 +451,27 @@ class Master(loader.Loader):
         # As in reschedule, run two loops: remove all stale placement before
         # creating any new one, so that an interruption never leaves an app
         # placed on two servers.
+        #
+        # Placement may also be recorded under servers that are no longer
+        # part of the model, nothing is placed on those.
         stored = dict()
-        for servername, server in self.cell.members().items():
+        servers = self.cell.members()
+        for servername in set(self.backend.list(z.PLACEMENT)) | set(servers):
             placement_node = z.path.placement(servername)
-            self.backend.ensure_exists(placement_node)
+            if servername in servers:
+                self.backend.ensure_exists(placement_node)
+                correct = set(servers[servername].apps.keys())
+            else:
+                correct = set()
 
             current = set(self.backend.list(placement_node))
-            correct = set(server.apps.keys())
             stored[servername] = current
 
             for app in current - correct:
                 _LOGGER.info('Unscheduling: %s - %s', servername, app)
                 self.backend.delete(os.path.join(placement_node, app))
 
-        for servername, server in self.cell.members().items():
+        for servername, server in servers.items():
             placement_node = z.path.placement(servername)
             current = stored[servername]
             correct = set(server.apps.keys())
